@@ -653,7 +653,7 @@ pub fn c14_item(sh: &WcetShared, k: u64, acc: &mut Acc, note: &dyn Fn(&str)) {
 pub fn run_c14(opt: &Options) -> i32 {
     let t0 = std::time::Instant::now();
     let cases = if opt.thorough() {
-        opt.scaled(6_000_000)
+        opt.scaled(60_000_000)
     } else {
         opt.scaled(1_000_000)
     };
